@@ -742,6 +742,7 @@ class FnSpec:
         self.opts = {}
         self.files = []
         self.after_let = {}      # local name -> proof lines inserted after the statement `let NAME ...;`
+        self.optional_lets = {}  # NAME -> labels still believed when the optional anchor is lost
         self.after_call = {}     # (fn name, ordinal) -> proof lines inserted after the statement containing the K-th call `NAME(`
 
 
@@ -881,10 +882,20 @@ def parse_spec(path, into=None):
             else:
                 cur.after_call[mode[1]].append(line)
             continue
-        if st.startswith('after_let ') and mode != 'body':
+        if (st.startswith('after_let ') or st.startswith('after_let? ')) and mode != 'body':
+            # `after_let? NAME keeps=LABEL[,LABEL]`: optional anchor. When the local is gone the hint is dropped and the
+            # function is verified in degraded mode: only a failure of one of the `keeps` obligations (whose proof does not
+            # use the hint) is believed; any other failure in that function is undecided (exit 2).
             flush()
-            nm_ = st.split()[1]
+            ws_ = st.split()
+            nm_ = ws_[1]
             cur.after_let.setdefault(nm_, [])
+            if ws_[0] == 'after_let?':
+                keeps_ = []
+                for w_ in ws_[2:]:
+                    if w_.startswith('keeps='):
+                        keeps_ = [x for x in w_[6:].split(',') if x]
+                cur.optional_lets[nm_] = keeps_
             mode, target = ('afterlet', nm_), None
             continue
         if mode and mode[0] == 'afterlet':
